@@ -44,7 +44,7 @@ class Gen:
         r = rng
         self.N = r.randint(4, 7)
         self.realfam = r.random() < 0.5
-        self.iscal, self.rscal, self.lscal = ["s0", "s1", "t"], ["x0"], ["fl", "fg"]
+        self.iscal, self.rscal, self.lscal = ["s0", "s1", "t"], ["x0"], ["fl", "fg", "fh"]
         self.loopvars = ["i", "j", "k"]
         for n in self.iscal + self.rscal + self.lscal + self.loopvars + ["ii"]:
             names.id(n)
@@ -156,8 +156,35 @@ class Gen:
         at, aa = self.leaf(typ, live)
         return f"({at} ** 2)", ["bin", "pow", aa, ["lit", 2]]
 
+    def lexpr(self, live, depth=0, maxdepth=3):
+        """logical expression mixing .and./.or./.not./.eqv./.neqv., logical variables and relational
+        sub-expressions; EVERY compound operand is parenthesised in the text, so the text denotes
+        exactly the tree of the AST whatever the operator precedences are"""
+        r = self.r
+        if depth >= maxdepth or (depth >= 1 and r.random() < 0.22):
+            x = r.random()
+            if x < 0.6:
+                v = r.choice(self.lscal)
+                return v, ["var", self.id(v)]
+            if x < 0.68:
+                b = r.choice([0, 1])
+                return [".false.", ".true."][b], ["lit", b]
+            op, nm = r.choice([(">", "gt"), ("<", "lt"), (">=", "ge"), ("<=", "le"), ("==", "eq"), ("/=", "ne")])
+            (at, aa), (bt, ba) = self.expr(INT, live, 2), self.expr(INT, live, 2)
+            return f"({at} {op} {bt})", ["bin", nm, aa, ba]
+        self.feats.add("logical-depth-%d" % min(maxdepth, 4))
+        if r.random() < 0.18:
+            at, aa = self.lexpr(live, depth + 1, maxdepth)
+            return f"(.not. {at})", ["un", "not", aa]
+        op, nm = r.choice([(".and.", "and"), (".or.", "or"), (".or.", "or"), (".eqv.", "eqv"), (".neqv.", "neqv"),
+                           (".eqv.", "eqv")])
+        (at, aa), (bt, ba) = self.lexpr(live, depth + 1, maxdepth), self.lexpr(live, depth + 1, maxdepth)
+        return f"({at} {op} {bt})", ["bin", nm, aa, ba]
+
     def cond(self, live, depth=0):
         r = self.r
+        if depth == 0 and r.random() < 0.4:
+            return self.lexpr(live, 0, r.choice([2, 3, 3, 4]))
         x = r.random()
         if depth < 1 and x < 0.2:
             op, nm = r.choice([(".and.", "and"), (".or.", "or"), (".eqv.", "eqv"), (".neqv.", "neqv")])
@@ -275,6 +302,30 @@ class Gen:
             at, aa, bt, ba = bt, ba, at, aa
         return f"{at} {op} {bt}", ["bin", nm, aa, ba]
 
+    def lmask(self, typ, depth=0):
+        """array-valued logical mask: relational leaves over sections joined by logical operators"""
+        r = self.r
+        if depth >= 2 or (depth >= 1 and r.random() < 0.35):
+            if depth >= 1 and r.random() < 0.2:
+                v = r.choice(self.lscal)
+                return v, ["scal", ["var", self.id(v)]]
+            t, a = self.mask(typ)
+            return f"({t})", a
+        self.feats.add("where-logical-mask")
+        if r.random() < 0.15:
+            at, aa = self.lmask(typ, depth + 1)
+            return f"(.not. {at})", ["un", "not", aa]
+        op, nm = r.choice([(".and.", "and"), (".or.", "or"), (".or.", "or"), (".eqv.", "eqv"), (".neqv.", "neqv")])
+        at, aa = self.lmask(typ, depth + 1)
+        bt, ba = self.lmask(typ, depth + 1)
+        if firstsec(aa) is None and firstsec(ba) is None:
+            t, a = self.mask(typ)
+            at, aa = f"({t})", a
+        return f"({at} {op} {bt})", ["bin", nm, aa, ba]
+
+    def anymask(self, typ):
+        return self.lmask(typ) if self.r.random() < 0.35 else self.mask(typ)
+
     def wassign(self, typ):
         r = self.r
         arr = r.choice(self.arrs_of(typ, fam=1))
@@ -297,13 +348,13 @@ class Gen:
         typ = REAL if (self.realfam and r.random() < 0.4) else INT
         self.feats.add("where")
         self.clean = r.random() < 0.8
-        mt, ma = self.mask(typ)
+        mt, ma = self.anymask(typ)
         nbody = r.choice([1, 1, 2, 3])
         body = [self.wassign(typ) for _ in range(nbody)]
         clauses = []   # (masktext|None, maskast, [assigns])
         if r.random() < 0.45:
             for _ in range(r.choice([0, 1, 1, 2])):
-                t, a = self.mask(typ)
+                t, a = self.anymask(typ)
                 clauses.append((t, a, [self.wassign(typ) for _ in range(r.choice([1, 1, 2]))]))
                 self.feats.add("elsewhere-masked")
             if r.random() < 0.6 or not clauses:
@@ -337,13 +388,18 @@ class Gen:
     def select(self, live, ind, depth):
         r = self.r
         self.feats.add("select")
-        if r.random() < 0.2:
-            v = r.choice(self.lscal)
-            seltext, selast, lg = v, ["var", self.id(v)], 1
-            items = [[("val", 1, ".true.")], [("val", 0, ".false.")]]
-            r.shuffle(items)
-            items = items[: r.choice([1, 2, 2])]
+        if r.random() < 0.3:
+            if r.random() < 0.6:
+                v = r.choice(self.lscal)
+                seltext, selast = v, ["var", self.id(v)]
+            else:
+                seltext, selast = self.lexpr(live, 0, r.choice([2, 3]))
+            lg = 1
+            T, F = ("val", 1, ".true."), ("val", 0, ".false.")
+            items = r.choice([[[T], [F]], [[F], [T]], [[T]], [[F]], [[T, F]], [[F, T]], [[T, F]]])
             self.feats.add("select-logical")
+            if len(items[0]) > 1:
+                self.feats.add("select-logical-list")
         else:
             seltext, selast = self.expr(INT, live, 1)
             lg = 0
@@ -479,6 +535,60 @@ class Gen:
             els = ["ite", c2a, ba, els]
         return lines, ["ite", ca, ta, els]
 
+    def truth_block(self, ind):
+        """loops over all truth assignments of fl, fg, fh; the outcome of deep logical expressions (IF
+        conditions, logical assignment, logical SELECT CASE with value lists) is recorded per assignment in e(..)"""
+        r = self.r
+        self.feats.add("truth-table")
+        live = {"i": (0, 1), "j": (0, 1), "k": (0, 1)}
+        i2 = ind + "      "
+        lines, asts = [], []
+        for v, lv in (("fl", "i"), ("fg", "j"), ("fh", "k")):
+            lines.append(f"{i2}{v} = {lv} == 1")
+            asts.append(["assign", self.id(v), ["bin", "eq", ["var", self.id(lv)], ["lit", 1]]])
+        lines.append(f"{i2}s0 = 0")
+        asts.append(["assign", self.id("s0"), ["lit", 0]])
+        s0 = ["var", self.id("s0")]
+        w = 1
+        for _ in range(r.randint(2, 4)):
+            x = r.random()
+            inc = lambda c: ["assign", self.id("s0"), ["bin", "add", s0, ["lit", c]]]   # noqa: E731
+            if x < 0.45:
+                ct, ca = self.lexpr(live, 0, r.choice([3, 3, 4]))
+                lines.append(f"{i2}if ({ct}) s0 = s0 + {w}")
+                asts.append(["ite", ca, inc(w), ["skip"]])
+            elif x < 0.6:
+                ct, ca = self.lexpr(live, 0, r.choice([3, 4]))
+                lines += [f"{i2}if ({ct}) then", f"{i2}  s0 = s0 + {w}", f"{i2}else", f"{i2}  s0 = s0 + {16 * w}", f"{i2}end if"]
+                asts.append(["ite", ca, ["seqs", inc(w)], ["seqs", inc(16 * w)]])
+            elif x < 0.7:
+                v = r.choice(self.lscal)
+                ct, ca = self.lexpr(live, 0, 3)
+                lines.append(f"{i2}{v} = {ct}")
+                asts.append(["assign", self.id(v), ca])
+            else:
+                ls, a = self.select(live, i2, 5, force_logical=True, bodies=(inc(w), inc(16 * w), f"s0 = s0 + {w}", f"s0 = s0 + {16 * w}"))
+                lines += ls
+                asts.append(a)
+            w *= 2
+        e = self.arrs["e"]
+        idx = ["bin", "add", ["bin", "add", ["bin", "mul", ["var", self.id("i")], ["lit", 4]],
+                              ["bin", "mul", ["var", self.id("j")], ["lit", 2]]], ["var", self.id("k")]]
+        it = "(((i * 4) + (j * 2)) + k)"
+        if e.lo > 0:
+            it, idx = f"{it} + {e.lo}", ["bin", "add", idx, ["lit", e.lo]]
+        elif e.lo < 0:
+            it, idx = f"{it} - {-e.lo}", ["bin", "sub", idx, ["lit", -e.lo]]
+        lines.append(f"{i2}e({it}) = s0")
+        asts.append(["store1", self.id("e"), idx, s0])
+        body = ["seqs"] + asts
+        out = [f"{ind}do i = 0, 1", f"{ind}  do j = 0, 1", f"{ind}    do k = 0, 1"] + lines + \
+              [f"{ind}    end do", f"{ind}  end do", f"{ind}end do"]
+        ast = body
+        for v in ("k", "j", "i"):
+            ast = ["do", self.id(v), ["lit", 0], ["lit", 1], "none", ["seqs", ast] if v != "k" else ast]
+        return out, ast
+
     def block(self, live, n, ind, depth, allow_empty=False):
         r = self.r
         lines, asts = [], []
@@ -515,7 +625,7 @@ class Gen:
         p.tagtext = self.tagtext
         nrout = r.choice([1, 1, 2, 3])
         mod = ["module m", "  implicit none",
-               "  integer :: " + ", ".join(self.iscal), "  real :: x0", "  logical :: fl, fg"]
+               "  integer :: " + ", ".join(self.iscal), "  real :: x0", "  logical :: fl, fg, fh"]
         mod += [a.decl() for a in self.arrs.values()]
         mod += ["contains", "  subroutine init()", "    integer :: ii"]
         for s in self.iscal:
@@ -523,6 +633,7 @@ class Gen:
         mod.append(f"    x0 = {r.randint(0, 5)}.0")
         mod.append(f"    fl = {r.choice(['.true.', '.false.'])}")
         mod.append(f"    fg = {r.choice(['.true.', '.false.'])}")
+        mod.append(f"    fh = {r.choice(['.true.', '.false.'])}")
         for a in self.arrs.values():
             k, c, m, o = r.randint(1, 7), r.randint(0, 9), r.choice([5, 7, 11]), r.randint(0, 4)
             mod += [f"    do ii = {a.lo}, {a.hi}", f"      {a.name}(ii) = mod(ii * {k} + {c + 40}, {m}) - {o}", "    end do"]
